@@ -1,7 +1,7 @@
 /-
 C08 — property theorems, part 5: base64, decimal strings, check digits (b64.c, dec.c).
 -/
-import Bee2V.C08.LemmasText
+import Bee2V.C08.LemmasText2
 namespace Bee2V.C08
 
 /-- b64To ∘ b64From = id on every octet string (all three padding forms) -/
@@ -25,5 +25,17 @@ example : decLuhnCalc [55, 57, 57, 50, 55, 51, 57, 56, 55, 49] = 51 := by decide
 theorem decDamm_calc_verify (s : List UInt8) (hv : decIsValid s = true) :
     decDammVerify (s ++ [decDammCalc s]) = true := damm_calc_verify s hv
 example : decDammCalc [53, 55, 50] = 52 := by decide
+
+/-- CANONICAL (hex): hexFrom (hexTo s) is s in upper case, for every string hexIsValid accepts
+    (hexFrom always writes upper-case digits; both cases are accepted on input) -/
+theorem hex_canonical (s : List UInt8) (hv : hexIsValid s = true) : hexFrom (hexTo s) = s.map hexUpC :=
+  hex_canonical' s.length s (Nat.le_refl _) hv
+example : hexIsValid [48, 97, 70, 102] = true ∧ hexFrom (hexTo [48, 97, 70, 102]) = [48, 65, 70, 70] := by decide
+
+/-- CANONICAL (base64): b64From (b64To s) = s for every string b64IsValid accepts (the padding bits of
+    the last block must be zero, so the accepted text is the only text of its octets) -/
+theorem b64_canonical (s : List UInt8) (hv : b64IsValid s = true) : b64From (b64To s) = s :=
+  b64_canonical' s.length s (Nat.le_refl _) hv
+example : b64IsValid [81, 85, 73, 61] = true ∧ b64IsValid [81, 85, 74, 61] = false := by decide
 
 end Bee2V.C08
